@@ -787,7 +787,7 @@ func csWalk(lmtp bool, rng *rand.Rand, steps int) []map[string]interface{} {
 			}
 			for j := 0; j < n; j++ {
 				if lmtp {
-					l.V = append(l.V, pick("250", "550"))
+					l.V = append(l.V, pick("250", "250", "550", "421"))
 				} else {
 					l.V = append(l.V, pick("250", "554"))
 				}
